@@ -23,6 +23,7 @@ inductive Cls
   | user          -- a status handed in by the environment (source stream, body, trailers)
   | tooLargeEnc   -- finish_encoding: over max_message_size            (OUT_OF_RANGE)
   | over4G        -- finish_encoding: over u32::MAX                    (RESOURCE_EXHAUSTED)
+  | encode        -- encode_item: `Encoder::encode` returned an error  (INTERNAL "Error encoding: …")
   | badFlag       -- decode_chunk: flag not 0/1                        (INTERNAL)
   | noEncoding    -- decode_chunk: flag 1 without negotiated encoding  (INTERNAL)
   | tooLargeDec   -- decode_chunk: over max_message_size               (OUT_OF_RANGE)
@@ -46,6 +47,9 @@ structure Codec (α : Type) where
   deErr : Nat                     -- the code of that error status
   cz : Enc → Bytes → Bytes
   dz : Enc → Bytes → Option Bytes
+  /-- `Encoder::encode` returns `Err` for this message (whatever it wrote into the buffer before
+  failing is dropped by `EncodedBytes::poll_next`, so the model does not keep it) -/
+  serFail : α → Bool := fun _ => false
 
 def u32Max : Nat := 4294967295
 def defaultMaxRecv : Nat := 4 * 1024 * 1024
@@ -54,10 +58,61 @@ def headerSize : Nat := 5
 /-! ### Encoder -/
 
 structure EncCfg where
-  comp : Option Enc        -- effective encoding (after the per-response `Disable` override)
+  comp : Option Enc        -- effective encoding (after the per-response `Disable` override, see `Enc.newServer`)
   yieldThr : Nat
   maxSize : Option Nat     -- `None` = usize::MAX (no limit)
   server : Bool
+  bufSize : Nat := 8192    -- `BufferSettings::buffer_size`: growth interval of the compression output buffer
+
+/-- `SingleMessageCompressionOverride` (compression.rs). -/
+inductive Override | inherit | disable
+deriving DecidableEq, Repr
+
+/-- `EncodeBody::new_server` → `EncodedBytes::new`: the per-response opt-out switches compression
+off for the whole body. -/
+def Enc.newServer (comp : Option Enc) (ovr : Override) (yieldThr bufSize : Nat) (maxSize : Option Nat) : EncCfg :=
+  { comp := if ovr = .disable then none else comp, yieldThr := yieldThr, maxSize := maxSize,
+    server := true, bufSize := bufSize }
+
+/-- `EncodeBody::new_client` → `EncodedBytes::new` with `SingleMessageCompressionOverride::default()`
+(`Inherit`): a request body has no opt-out. -/
+def Enc.newClient (comp : Option Enc) (yieldThr bufSize : Nat) (maxSize : Option Nat) : EncCfg :=
+  { comp := comp, yieldThr := yieldThr, maxSize := maxSize, server := false, bufSize := bufSize }
+
+/-! #### `compress` / `decompress` and `buffer_size` (compression.rs)
+
+Both reserve `((len / interval) + 1) * interval` bytes in their output buffer, `interval` being the
+codec's `buffer_size`.  Rust's `usize / usize` panics on a zero divisor, so the division is
+explicit here and a panic is an outcome (`none`).  The code as found divided by `buffer_size`
+itself (`Found.reserveCap`); after the fix commit "a zero buffer_size no longer divides by zero
+when (de)compressing" the interval is `max(1, buffer_size)`. -/
+
+/-- Rust's `usize / usize`: `none` is the panic "attempt to divide by zero". -/
+def udiv (a b : Nat) : Option Nat := if b = 0 then none else some (a / b)
+
+/-- the capacity `compress` (for `len` input bytes) / `decompress` (for `len = 2 * compressed
+length`) reserve; `none` = panic -/
+def reserveCap (bufSize len : Nat) : Option Nat :=
+  (udiv len (max 1 bufSize)).map (fun q => (q + 1) * max 1 bufSize)
+
+/-- the same computation in the code as found (before the fix) -/
+def Found.reserveCap (bufSize len : Nat) : Option Nat :=
+  (udiv len bufSize).map (fun q => (q + 1) * bufSize)
+
+/-- the `compress` call of `encode_item`: `none` = panic, otherwise the compressed bytes -/
+def compressCall (cd : Codec α) (bufSize : Nat) (e : Enc) (raw : Bytes) : Option Bytes :=
+  (reserveCap bufSize raw.length).map (fun _ => cd.cz e raw)
+
+/-- the `decompress` call of `decode_chunk` on a complete compressed payload: outer `none` =
+panic, otherwise what the decompressor made of it -/
+def decompressCall (cd : Codec α) (bufSize : Nat) (e : Enc) (pl : Bytes) : Option (Option Bytes) :=
+  (reserveCap bufSize (2 * pl.length)).map (fun _ => cd.dz e pl)
+
+def Found.compressCall (cd : Codec α) (bufSize : Nat) (e : Enc) (raw : Bytes) : Option Bytes :=
+  (Found.reserveCap bufSize raw.length).map (fun _ => cd.cz e raw)
+
+def Found.decompressCall (cd : Codec α) (bufSize : Nat) (e : Enc) (pl : Bytes) : Option (Option Bytes) :=
+  (Found.reserveCap bufSize (2 * pl.length)).map (fun _ => cd.dz e pl)
 
 inductive SrcEv (α : Type)
   | item (m : α)
@@ -69,8 +124,17 @@ def payload (cd : Codec α) (cfg : EncCfg) (m : α) : Bytes :=
   | some e => cd.cz e (cd.ser m)
   | none => cd.ser m
 
-/-- The two checks of `finish_encoding`, in the code's order. -/
+/-- Does `encode_item` panic on this message?  Only its `compress` call can (it is reached when
+compression is in effect and `Encoder::encode` succeeded). -/
+def compressPanics (cd : Codec α) (cfg : EncCfg) (m : α) : Bool :=
+  match cfg.comp with
+  | some e => !cd.serFail m && (compressCall cd cfg.bufSize e (cd.ser m)).isNone
+  | none => false
+
+/-- The ways `encode_item` refuses a message, in the code's order: `Encoder::encode` fails, then
+the two checks of `finish_encoding`. -/
 def encodeErr (cd : Codec α) (cfg : EncCfg) (m : α) : Option St :=
+  if cd.serFail m then some ⟨13, .encode⟩ else
   let len := (payload cd cfg m).length
   match cfg.maxSize with
   | some l =>
@@ -98,6 +162,7 @@ inductive BytesOut
   | err (st : St)
   | pending
   | done
+  | panic
 
 /-- The `loop` of `EncodedBytes::poll_next` (entered with `error = None`). -/
 def Enc.loop (cd : Codec α) (cfg : EncCfg) (buf : Bytes) :
@@ -108,6 +173,7 @@ def Enc.loop (cd : Codec α) (cfg : EncCfg) (buf : Bytes) :
   | .err st :: rest =>
     if buf.isEmpty then (⟨[], none⟩, rest, .err st) else (⟨[], some st⟩, rest, .data buf)
   | .item m :: rest =>
+    if compressPanics cd cfg m then (⟨buf, none⟩, rest, .panic) else
     match encodeItem cd cfg buf m with
     | .error st =>
       if buf.isEmpty then (⟨[], none⟩, rest, .err st) else (⟨[], some st⟩, rest, .data buf)
@@ -131,6 +197,7 @@ inductive FrameOut
   | err (st : St)
   | pending
   | none
+  | panic
 deriving DecidableEq, Repr
 
 /-- `EncodeBody::poll_frame`. -/
@@ -140,6 +207,7 @@ def Enc.pollFrame (cd : Codec α) (cfg : EncCfg) (b : BodySt) (evs : List (SrcEv
   else
     match Enc.pollNext cd cfg b.inner evs with
     | (s', evs', .pending) => ({ b with inner := s' }, evs', .pending)
+    | (s', evs', .panic) => ({ b with inner := s' }, evs', .panic)
     | (s', evs', .data d) => ({ b with inner := s' }, evs', .data d)
     | (s', evs', .err st) =>
       if cfg.server then ({ inner := s', isEndStream := true }, evs', .trailers st)
@@ -156,6 +224,31 @@ def Enc.run (cd : Codec α) (cfg : EncCfg) : Nat → BodySt → List (SrcEv α) 
   | n + 1, b, evs =>
     match Enc.pollFrame cd cfg b evs with
     | (b', evs', o) => o :: Enc.run cd cfg n b' evs'
+
+/-- `EncodeBody::is_end_stream`. -/
+def Enc.isEndStream (b : BodySt) : Bool := b.isEndStream
+
+/-- `EncodeBody::size_hint`: not overridden, so `http_body::Body`'s default — lower bound 0, no
+upper bound — in every state. -/
+def Enc.sizeHint (_b : BodySt) : Nat × Option Nat := (0, none)
+
+/-- `is_end_stream()` observed before each of `n` successive polls and once after the last. -/
+def Enc.endFlags (cd : Codec α) (cfg : EncCfg) : Nat → BodySt → List (SrcEv α) → List Bool
+  | 0, b, _ => [Enc.isEndStream b]
+  | n + 1, b, evs =>
+    match Enc.pollFrame cd cfg b evs with
+    | (b', evs', _) => Enc.isEndStream b :: Enc.endFlags cd cfg n b' evs'
+
+/-- `n` successive polls in one pass: each poll's result with the `is_end_stream()` seen just
+before it, and the flag after the last poll (`Enc.run` and `Enc.endFlags` are its projections:
+`trace_run`, `trace_flags`). -/
+def Enc.trace (cd : Codec α) (cfg : EncCfg) : Nat → BodySt → List (SrcEv α) → List (Bool × FrameOut) × Bool
+  | 0, b, _ => ([], Enc.isEndStream b)
+  | n + 1, b, evs =>
+    match Enc.pollFrame cd cfg b evs with
+    | (b', evs', o) =>
+      let r := Enc.trace cd cfg n b' evs'
+      ((Enc.isEndStream b, o) :: r.1, r.2)
 
 /-! ### Decoder -/
 
